@@ -16,7 +16,7 @@ import (
 )
 
 // PaintNames must be the list of spec/GState.tla (frame codes are 1-based indices into it).
-var PaintNames = []string{"black", "red", "redh", "dred", "blue", "blueh", "green", "grey"}
+var PaintNames = []string{"black", "red", "redh", "dred", "blue", "blueh", "green", "grey", "ggrey"}
 
 const FreeCode = 99
 
@@ -45,6 +45,8 @@ type recEvent struct {
 	M     canvas.Matrix
 	Data  []float64
 	Style canvas.Style
+	Stops []canvas.Stop // copy of the stops of a gradient fill (the Style only holds the pointer)
+	Ends  [2]canvas.Point
 }
 
 func snapshot(c *canvas.Canvas) []recEvent {
@@ -53,6 +55,10 @@ func snapshot(c *canvas.Canvas) []recEvent {
 	out := make([]recEvent, len(r.Events))
 	for i, e := range r.Events {
 		out[i] = recEvent{Kind: e.Kind, M: e.M, Data: e.Data, Style: e.Style}
+		if lg, ok := e.Style.Fill.Gradient.(*canvas.LinearGradient); ok {
+			out[i].Stops = append([]canvas.Stop(nil), lg.Stops...)
+			out[i].Ends = [2]canvas.Point{lg.Start, lg.End}
+		}
 	}
 	return out
 }
